@@ -309,7 +309,12 @@ u32 ir_tolower(u32 c){ return (c>='A'&&c<='Z') ? c+32 : c; }
 u32 ir_toupper(u32 c){ return (c>='a'&&c<='z') ? c-32 : c; }
 #endif
 #ifdef NEED_ir_sched_yield
-u32 ir_sched_yield(void){ return 0; }
+u32 ir_sched_yield(void){
+#ifdef VP_YIELD_BLOCKS
+  /* a spin-wait on another thread: in the injection scheme that thread is suspended below us, so this path cannot progress */
+  __CPROVER_assume(0);
+#endif
+  return 0; }
 #endif
 
 #include "models_more.c"
